@@ -27,7 +27,7 @@ RULE = (
     'configuration units and rounded to the dtype; L1 and L2 are float64 (as the beamline graph produces them) or float32 '
     'operands, independently;  arrival times are (a) the simulated neutron '
     't=L1/v(Ei)+L2/v(Ef) rounded to the tof dtype, (b) the code\'s own fl(t0) and its +-1,2,3,17 neighbours in the '
-    'tof dtype, (c) log-uniform 1e-7..1e3 s, (d) zero and negative; (e) array-shaped operands: 1-d time axes ascending / descending / shuffled / with repeated values, pixel x tof with per-pixel (or per-tof) L1, L2, energy and 2-d tof, placed so that none / some / all elements and pixels are unphysical, with exact ties t = fl(t0) inside the array, also through convert(); every element is judged by the scalar oracle for its own operands and compared with the model applied element-wise; result dims = union of the operand dims. A case is distinct by (configuration, operand '
+    'tof dtype, (c) log-uniform 1e-7..1e3 s, (d) zero and negative; (e) array-shaped operands: 1-d time axes ascending / descending / shuffled / with repeated values, pixel x tof with per-pixel (or per-tof) L1, L2, energy and 2-d tof, placed so that none / some / all elements and pixels are unphysical, with exact ties t = fl(t0) inside the array, also through convert(); every element is judged by the scalar oracle for its own operands and compared with the model applied element-wise; result dims = union of the operand dims. (f) call sequences: 2-4 consecutive calls of the kernels (20 % through convert) that reuse the same operand objects with an in-place modification (values, *=, unit preserved) of energy / L1 / L2 / tof between calls, identical repeats and alternating direct / indirect calls sharing objects; every call is judged for the current operand values and must equal the same call on fresh copies bit for bit (key C05:history-dependent). A case is distinct by (configuration, operand '
     'bit patterns). Values are compared under the condition-aware tolerance eps*(max(E_fixed,E_var)+E_var*t0/|t-t0|) '
     'where, in the ORACLE, eps follows the RESULT dtype (1e-11 for a float64 result whatever the operand dtypes, 1e-5 for a float32 result) — except the dtype patterns in which the unchanged code is only single-precision accurate (energy float32 with a non-float32 tof, or a float32 length of the variable leg; key C05:mixed-precision:<kernel>, known), which get the 1e-5 budget; a float32 tof or fixed-leg length with float64 energy is held to 1e-11 and to a NaN-boundary band of 8 double-precision ulps; the model/implementation correspondence uses eps=1e-11 (all double) or 1e-5 (any single-precision operand among energy, tof, L1, L2); NaN-ness, finiteness, unit and dtype exactly. '
     'Conservation against Ei-Ef is demanded when both legs are comparable (t0/(t-t0) <= 100), with the rounding of '
@@ -635,6 +635,30 @@ def correspond(ctx):
         if not ok:
             ctx.disagree(dict(wit, index=idx), bits(v) if not math.isnan(v) else 'nan', mo,
                          'element of an array evaluation differs from the model applied to the element operands')
+    # call sequences on reused operand objects modified in place: the (pure) model on the CURRENT values
+    items, lines = [], []
+    for _ in range(ctx.n(200, 4000)):
+        cfg0 = random_cfg(rng, allow_int=True, ctx=ctx)
+        seq = Sequence(rng, cfg0)
+        ctx.count('seq')
+        for i, (geom, snap, res, _) in enumerate(seq.run(fresh_check=False)):
+            cfg = seq.cfg.with_geom(geom)
+            if isinstance(res, str):
+                ctx.disagree(dict(seq.witness(), call=i), res, 'ok', 'kernel raised inside a call sequence')
+                continue
+            for j, c in enumerate(seq.elements(geom, snap)):
+                items.append((cfg, seq, i, j, c, float(res[0][j])))
+                lines.append(model_line(cfg, c))
+    for (cfg, seq, i, j, c, v), mo in zip(items, ctx.driver(lines)):
+        ctx.case(('seq', cfg.key(), i, j, bits(c['Ei']), bits(c['Ef']), bits(c['L1']), bits(c['L2']), bits(c['t'])), True)
+        if mo in ('none', 'nan'):
+            ok = math.isnan(v)
+        else:
+            mv = unbits(mo)
+            ok = (not math.isnan(v)) and (v == mv or (math.isfinite(v) and math.isfinite(mv) and _close(cfg, c, v, mv)))
+        if not ok:
+            ctx.disagree(dict(seq.witness(), call=i, element=j), bits(v) if not math.isnan(v) else 'nan', mo,
+                         'call of a sequence on reused, in-place modified operands differs from the model on the current values')
 
 
 # ---- oracle -----------------------------------------------------------------------------------
@@ -1008,6 +1032,165 @@ def _oracle_arrays(ctx, n):
             ctx.violation(key, what, dict(array_witness(cfg, layout, order, position, ops, via_convert), **ex))
 
 
+# ---- call sequences (history independence) -----------------------------------------------------
+
+SEQ_MODS = ['none', 'energy*=', 'energy*=', 'energy.value=', 'energy.value=', 'L1*=', 'L1.value=', 'L2*=', 'L2.value=', 'tof.values=', 'tof*=']
+
+
+class Sequence:
+    """2-4 consecutive calls that reuse the SAME operand objects (0-d energy, L1, L2 and a 1-d tof), one of them
+    modified in place between calls (an energy scan, a moved detector, the next chunk of times)"""
+
+    def __init__(self, rng, cfg: Cfg, via_convert=False):
+        import scipp as sc
+
+        alternate = rng.random() < 0.3
+        if alternate and 'i32' in (cfg.l1D, cfg.l2D):
+            # both legs become the variable leg in turn, and scipp cannot square an int32 length
+            cfg = Cfg(cfg.geom, cfg.uE, cfg.ut, cfg.u1, cfg.u2, cfg.eD, cfg.tD,
+                      'i64' if cfg.l1D == 'i32' else cfg.l1D, 'i64' if cfg.l2D == 'i32' else cfg.l2D)
+        self.cfg, self.via_convert = cfg, via_convert
+        c = gen_cases(rng, cfg, 1, kinds=('neutron',), comparable=True)[0]
+        self.c1, self.c2 = c['c1'], c['c2']
+        nt = rng.randint(2, 5)
+        self.E0, self.Eo, self.L10, self.L20 = c['Ei' if cfg.geom == 'direct' else 'Ef'], c['Ef' if cfg.geom == 'direct' else 'Ei'], c['L1'], c['L2']
+        t0 = float(np_t0(cfg, c['c1'] if cfg.geom == 'direct' else c['c2'], self.E0, float(c['L1'] if cfg.geom == 'direct' else c['L2'])))
+        self.t00 = np.array([cast(t0 * rng.choice([rng.uniform(0.3, 0.99), 1 + lu(rng, 1e-3, 5), 1 + lu(rng, 1e-3, 5)]), cfg.tD)
+                             for _ in range(nt)], dtype=NP[cfg.tD])
+        # steps: (geometry of the call, modification applied in place BEFORE the call, parameter)
+        n = rng.randint(2, 4)
+        self.steps = []
+        for i in range(n):
+            geom = cfg.geom if (not alternate or i % 2 == 0) else ('indirect' if cfg.geom == 'direct' else 'direct')
+            mod = 'none' if i == 0 else rng.choice(SEQ_MODS)
+            self.steps.append((geom, mod, lu(rng, 0.5, 2.0)))
+
+    def _apply(self, ops, mod, f, sc):
+        cfg = self.cfg
+        name = {'e': 'E', 'L': None}.get(mod[0])
+        target = {'energy': 'E', 'L1': 'L1', 'L2': 'L2', 'tof': 'tof'}[mod.split('*')[0].split('.')[0]] if mod != 'none' else None
+        if target is None:
+            return
+        d = {'E': cfg.eD, 'L1': cfg.l1D, 'L2': cfg.l2D, 'tof': cfg.tD}[target]
+        var = ops[target]
+        if mod.endswith('*=') and d not in INTS:
+            var *= sc.scalar(f, dtype=SC[d])             # in place, unit preserved
+        elif target == 'tof':
+            var.values = np.array([cast(float(x) * f, d) for x in var.values], dtype=NP[d])
+        else:
+            var.value = cast(float(var.value) * f, d)
+
+    def run(self, fresh_check=True):
+        """→ list per step of (geom, snapshot of the current operand values, shared-object result, fresh-copy result)"""
+        import scipp as sc
+        import scippneutron as scn
+        from scippneutron.conversion import tof as K
+
+        cfg = self.cfg
+        ops = {'E': sc.scalar(self.E0, unit=cfg.uE, dtype=SC[cfg.eD]), 'L1': sc.scalar(self.L10, unit=cfg.u1, dtype=SC[cfg.l1D]),
+               'L2': sc.scalar(self.L20, unit=cfg.u2, dtype=SC[cfg.l2D]),
+               'tof': sc.array(dims=['tof'], values=self.t00.copy(), unit=cfg.ut, dtype=SC[cfg.tD])}
+        da = None
+
+        def call(geom, o):
+            ename = 'incident_energy' if geom == 'direct' else 'final_energy'
+            if self.via_convert:
+                d = sc.DataArray(sc.ones(dims=['tof'], shape=[len(o['tof'])]), coords={'tof': o['tof'], 'L1': o['L1'], 'L2': o['L2'], ename: o['E']})
+                return scn.convert(d, origin='tof', target='energy_transfer', scatter=True).coords['energy_transfer']
+            fn = K.energy_transfer_direct_from_tof if geom == 'direct' else K.energy_transfer_indirect_from_tof
+            return fn(tof=o['tof'], L1=o['L1'], L2=o['L2'], **{ename: o['E']})
+
+        out = []
+        for geom, mod, f in self.steps:
+            self._apply(ops, mod, f, sc)
+            snap = {k: v.copy() for k, v in ops.items()}
+            try:
+                r = call(geom, ops)
+                res = (np.asarray(r.values, dtype=np.float64).copy(), str(r.dtype), bool(r.unit == sc.Unit(cfg.uE)))
+            except Exception as e:  # noqa: BLE001
+                res = _err(e)
+            out.append([geom, snap, res, None])
+        if fresh_check:
+            for item in out:
+                geom, snap = item[0], item[1]
+                try:
+                    r = call(geom, {k: v.copy() for k, v in snap.items()})
+                    item[3] = np.asarray(r.values, dtype=np.float64).copy()
+                except Exception as e:  # noqa: BLE001
+                    item[3] = _err(e)
+        return out
+
+    def witness(self):
+        w = self.cfg.as_dict()
+        w.update(op='sequence', via_convert=self.via_convert, E=bits(self.E0), Eo=bits(self.Eo), L1=bits(self.L10), L2=bits(self.L20),
+                 tof=[bits(x) for x in self.t00], c1=bits(self.c1), c2=bits(self.c2), steps=[list(st) for st in self.steps])
+        return w
+
+    @staticmethod
+    def from_witness(w):
+        import random as _r
+
+        cfg = Cfg.from_dict(w)
+        q = Sequence.__new__(Sequence)
+        q.cfg, q.via_convert = cfg, w.get('via_convert', False)
+        q.E0, q.Eo = NP[cfg.eD](unbits(w['E'])), NP[cfg.eD](unbits(w['Eo']))
+        q.L10, q.L20 = NP[cfg.l1D](unbits(w['L1'])), NP[cfg.l2D](unbits(w['L2']))
+        q.t00 = np.array([unbits(x) for x in w['tof']]).astype(NP[cfg.tD])
+        q.c1, q.c2 = unbits(w['c1']), unbits(w['c2'])
+        q.steps = [tuple(st) for st in w['steps']]
+        return q
+
+    def elements(self, geom, snap):
+        """scalar cases (current values) of one call"""
+        direct = geom == 'direct'
+        e = snap['E'].value
+        return [dict(kind='sequence', Ei=e if direct else self.Eo, Ef=self.Eo if direct else e, L1=snap['L1'].value, L2=snap['L2'].value,
+                     t=t, c1=self.c1, c2=self.c2) for t in snap['tof'].values]
+
+
+def judge_sequence(seq: Sequence):
+    """every call is judged by the scalar oracle for the operands' CURRENT values and must equal, bit for bit, the same
+    call made on fresh copies of the operands → list of (key, what, extra)"""
+    out = []
+    for i, (geom, snap, res, fresh) in enumerate(seq.run()):
+        cfg = seq.cfg.with_geom(geom)
+        mod = seq.steps[i][1]
+        if isinstance(res, str) or isinstance(fresh, str):
+            if res != fresh:
+                out.append(('C05:history-dependent', f'call {i} ({geom}, after `{mod}`) gives {res if isinstance(res, str) else "a result"} on the reused '
+                            f'objects but {fresh if isinstance(fresh, str) else "a result"} on fresh copies', {'failing_call': i}))
+            continue
+        vals, dtype, unit_ok = res
+        same = np.array_equal(vals, fresh, equal_nan=True)
+        for j, c in enumerate(seq.elements(geom, snap)):
+            found = [f for f in judge(cfg, c, float(vals[j]), dtype, unit_ok)]
+            for k, what, ex in found:
+                if not same and not (k == 'C05:f32-constant-underflow' or k.startswith('C05:mixed-precision:')):
+                    k = 'C05:history-dependent'
+                    what = f'call {i} ({geom}, after in-place `{mod}`), element {j}: wrong for the CURRENT operand values — ' + what
+                out.append((k, what, dict(ex, failing_call=i, element=j)))
+        if not same:
+            out.append(('C05:history-dependent', f'call {i} ({geom}, after in-place `{mod}`) on the reused operand objects returns '
+                        f'{vals.tolist()!r}, the same call on fresh copies {np.asarray(fresh).tolist()!r}', {'failing_call': i}))
+    seen, uniq = set(), []
+    for k, what, ex in out:
+        if k not in seen:
+            seen.add(k)
+            uniq.append((k, what, ex))
+    return uniq
+
+
+def _oracle_sequences(ctx, n):
+    rng = ctx.rng
+    for _ in range(n):
+        cfg = random_cfg(rng, allow_int=True, ctx=ctx)
+        seq = Sequence(rng, cfg, via_convert=rng.random() < 0.2)
+        ctx.count('oracle-seq:' + '/'.join(st[1] for st in seq.steps[1:])[:60] + (':convert' if seq.via_convert else ''))
+        ctx.case(('oracle-seq', seq.cfg.key(), seq.via_convert, bits(seq.E0), bits(seq.L10), bits(seq.L20), tuple(map(str, seq.steps))), True)
+        for key, what, ex in judge_sequence(seq):
+            ctx.violation(key, what, dict(seq.witness(), **ex))
+
+
 def oracle(ctx, deep):
     getcontext().prec = 60
     _oracle_corpus(ctx)
@@ -1016,11 +1199,13 @@ def oracle(ctx, deep):
         _oracle_ladders(ctx, 600)
         _oracle_convert(ctx, 150)
         _oracle_arrays(ctx, 600)
+        _oracle_sequences(ctx, 300)
     else:
         _oracle_kernels(ctx, ctx.n(250, 5000), 30)
         _oracle_ladders(ctx, ctx.n(600, 14000))
         _oracle_convert(ctx, ctx.n(150, 3000))
         _oracle_arrays(ctx, ctx.n(600, 12000))
+        _oracle_sequences(ctx, ctx.n(300, 6000))
 
 
 # ---- replay -----------------------------------------------------------------------------------
@@ -1032,6 +1217,11 @@ def replay(ctx, payload):
     if 'geom' not in w:
         print('no replayable witness in', key)
         return False
+    if w.get('op') == 'sequence':
+        found = judge_sequence(Sequence.from_witness(w))
+        for k, what, _ in found:
+            print(k, '-', what)
+        return any(k == key for k, _, _ in found)
     if w.get('op') == 'array':
         cfg = Cfg.from_dict(w)
         found = judge_array(cfg, ops_from_witness(cfg, w), kernel_const(cfg.uE, cfg.ut, cfg.u1), kernel_const(cfg.uE, cfg.ut, cfg.u2),
